@@ -773,8 +773,8 @@ func checkProbe(e *Env, m *loaderModel) {
 func init() {
 	Specs["C10"] = &Spec{
 		Level: "other",
-		Explanation: "Flag-word clause only: Filter.Flag of LoadFilter's argument reaches argument 2 of seccomp(2) through conversions only (no mask, arithmetic or substituted constant), the flag constants equal the UAPI " +
-			"values, and cmd/sandbox passes FilterFlagTSync. That every thread is covered under every schedule is the kernel's seccomp_sync_threads and the scheduler: not applicable to static analysis.",
+		Explanation: "Flag-word clause, plus one necessary condition of the coverage clause: Filter.Flag of LoadFilter's argument reaches argument 2 of seccomp(2) through conversions only (no mask, arithmetic or substituted constant), the flag constants equal the UAPI " +
+			"values, cmd/sandbox passes FilterFlagTSync, and for every flag word containing the thread-sync bit (all 64 combinations of the UAPI flag bits) a refused synchronisation (non-zero return, errno 0) is turned into an error, so a nil result with thread-sync never means 'nothing attached'. That every thread is covered under every schedule is the kernel's seccomp_sync_threads and the scheduler: not applicable to static analysis.",
 		Trusted:     []string{"go/ssa value flow", "linux/seccomp.h flag values (oracle)"},
 		Assumptions: []string{"every thread / every schedule / syscalls begun after the load: kernel and scheduler behaviour, not analysed"},
 		Run:         runC10,
@@ -798,6 +798,13 @@ func runC10(e *Env) {
 		r.Check(good, "E3.flagflow", "LoadFilter/flags", p.Pos(w.Pos()), "the flags argument is filter.Flag, unchanged", "the flags argument of the seccomp call is "+o.String()+", not filter.Flag unchanged")
 	}
 	checkSeccompWrapper(e, m, "E3.flagflow")
+	// "thread-sync requested and nil returned => every thread covered" needs the refusal to be reported for
+	// every flag word that contains the thread-sync bit
+	for _, s := range m.sites {
+		if s.name == "seccomp" {
+			checkR1CasesRule(e, m, s, load.FuncName(s.fn)+"/seccomp", "E3.tsync-refusal")
+		}
+	}
 	// constants
 	or := e.Oracle()
 	root := p.Pkgs[load.PkgRoot]
@@ -823,6 +830,19 @@ func checkSandboxFlag(e *Env, p *load.Program, rule string) {
 		return
 	}
 	ls := callsTo(mainFn, load.PkgRoot, "LoadFilter")
+	if len(ls) == 0 {
+		// a helper of the command that receives the Filter and reaches LoadFilter
+		lf := p.Func(load.PkgRoot, "LoadFilter")
+		for _, c := range flow.Calls(mainFn) {
+			call, ok := c.(*ssa.Call)
+			if !ok || len(call.Call.Args) == 0 || !isNamed(call.Call.Args[0].Type(), load.PkgRoot, "Filter") {
+				continue
+			}
+			if cal := flow.Callee(call); cal != nil && reachesFn(cal, lf, map[*ssa.Function]bool{}) {
+				ls = append(ls, call)
+			}
+		}
+	}
 	if len(ls) != 1 {
 		r.Unknown(rule, "sandbox.main/LoadFilter", p.Pos(mainFn.Pos()), fmt.Sprintf("expected one LoadFilter call, found %d", len(ls)))
 		return
@@ -840,24 +860,51 @@ func checkSandboxFlag(e *Env, p *load.Program, rule string) {
 		return
 	}
 	st := al.Type().Underlying().(*types.Pointer).Elem().Underlying().(*types.Struct)
-	var flagO *origin.O
+	var flagOs []*origin.O
 	for _, ref := range *al.Referrers() {
 		if fa, ok := ref.(*ssa.FieldAddr); ok && st.Field(fa.Field).Name() == "Flag" {
 			for _, r2 := range *fa.Referrers() {
 				if s, ok := r2.(*ssa.Store); ok && s.Addr == fa {
-					if flagO != nil {
-						r.Unknown(rule, "sandbox.main/Flag", p.Pos(s.Pos()), "Flag is stored more than once")
-					}
-					flagO = res.Of(s.Val, nil, s)
+					flagOs = append(flagOs, res.Of(s.Val, nil, s))
 				}
 			}
 		}
 	}
 	or := e.Oracle()
-	good := false
-	if flagO != nil {
-		if k, ok := flagO.IsConstInt(); ok && uint64(k)&or.Consts["SECCOMP_FILTER_FLAG_TSYNC"] != 0 {
-			good = true
+	// every alternative value of the flag carries the TSYNC bit (constants, joins of constants, x | constant)
+	var hasBit func(o *origin.O, depth int) bool
+	hasBit = func(o *origin.O, depth int) bool {
+		if o == nil || depth > 8 {
+			return false
+		}
+		if k, ok := o.IsConstInt(); ok {
+			return uint64(k)&or.Consts["SECCOMP_FILTER_FLAG_TSYNC"] != 0
+		}
+		switch o.Kind {
+		case origin.KConv:
+			return hasBit(o.Args[0], depth+1)
+		case origin.KPhi:
+			for _, a := range o.Args {
+				if !hasBit(a, depth+1) {
+					return false
+				}
+			}
+			return len(o.Args) > 0
+		case origin.KBin:
+			if o.Op == token.OR {
+				return hasBit(o.Args[0], depth+1) || hasBit(o.Args[1], depth+1)
+			}
+		}
+		return false
+	}
+	good := len(flagOs) > 0
+	for _, fo := range flagOs {
+		// a later `filter.Flag |= x` reads the field back: the bit survives an OR
+		if fo.Kind == origin.KBin && fo.Op == token.OR && (strings.HasSuffix(fo.Args[0].String(), ".Flag") || strings.HasSuffix(fo.Args[1].String(), ".Flag")) {
+			continue
+		}
+		if !hasBit(fo, 0) {
+			good = false
 		}
 	}
 	r.Check(good, rule, "sandbox.main/Flag", p.Pos(ls[0].Pos()), "the sandbox requests SECCOMP_FILTER_FLAG_TSYNC (exec.Command forks from an arbitrary runtime thread)",
@@ -1173,6 +1220,10 @@ func instrReaches(a, b ssa.Instruction) bool {
 // so following its CFG under each case is a complete decision table.  Whenever thread-sync is requested without
 // TSYNC_ESRCH and the kernel returned a non-zero value, the wrapper must return a non-nil error.
 func checkR1Cases(e *Env, m *loaderModel, s *rawSite, key string) {
+	checkR1CasesRule(e, m, s, key, "E3.result")
+}
+
+func checkR1CasesRule(e *Env, m *loaderModel, s *rawSite, key, rule string) {
 	r := e.R
 	p := m.p
 	or := e.Oracle()
@@ -1181,7 +1232,7 @@ func checkR1Cases(e *Env, m *loaderModel, s *rawSite, key string) {
 	esrch := int64(or.Consts["SECCOMP_FILTER_FLAG_TSYNC_ESRCH"])
 	r1v := flow.ResultN(s.call, 0)
 	errv := flow.ResultN(s.call, 2)
-	type env struct{ flags, r1 int64 }
+	type env struct{ flags, r1, op int64 }
 	var eval func(v ssa.Value, en env, depth int) (int64, bool)
 	eval = func(v ssa.Value, en env, depth int) (int64, bool) {
 		if depth > 20 {
@@ -1194,6 +1245,9 @@ func checkR1Cases(e *Env, m *loaderModel, s *rawSite, key string) {
 		case *ssa.Parameter:
 			if x == fn.Params[1] {
 				return en.flags, true
+			}
+			if x == fn.Params[0] {
+				return en.op, true
 			}
 		case *ssa.Convert:
 			return eval(x.X, en, depth+1)
@@ -1256,7 +1310,7 @@ func checkR1Cases(e *Env, m *loaderModel, s *rawSite, key string) {
 	for flags := int64(0); flags < 64; flags++ {
 		for _, r1 := range []int64{0, 7} {
 			nCases++
-			en := env{flags, r1}
+			en := env{flags, r1, int64(or.Consts["SECCOMP_SET_MODE_FILTER"])}
 			b := fn.Blocks[0]
 			var ret *ssa.Return
 			for steps := 0; steps < 50 && b != nil; steps++ {
@@ -1298,10 +1352,10 @@ func checkR1Cases(e *Env, m *loaderModel, s *rawSite, key string) {
 		}
 	}
 	if und > 0 {
-		r.Unknown("E3.result", key+"/r1-cases", p.Pos(s.call.Pos()), fmt.Sprintf("%d of %d (flags, r1) cases could not be followed through the wrapper's branch conditions", und, nCases))
+		r.Unknown(rule, key+"/r1-cases", p.Pos(s.call.Pos()), fmt.Sprintf("%d of %d (flags, r1) cases could not be followed through the wrapper's branch conditions", und, nCases))
 		return
 	}
-	r.Check(bad == 0, "E3.result", key+"/r1-cases", p.Pos(s.call.Pos()),
+	r.Check(bad == 0, rule, key+"/r1-cases", p.Pos(s.call.Pos()),
 		fmt.Sprintf("%d cases (64 flag words x r1 in {0, non-zero}): every refused thread-sync (TSYNC set, TSYNC_ESRCH clear, non-zero return) yields a non-nil error", nCases),
 		fmt.Sprintf("%d of %d (flags, r1) cases return nil although the kernel refused the thread synchronisation, e.g. %s: LoadFilter reports success with no filter attached", bad, nCases, firstBad))
 }
